@@ -16,7 +16,10 @@ class NumberType(Type):
             if other is None:
                 return self.value, None
             elif other.dtype is None:
+                # both operands are plain literals: compare them as floats in the same unit
                 self.value = float(self.value)
+                other.value = float(other.value)
+                other.convert(self.unit)
             else:
                 if other.dtype in [int,float]:
                     self.convert(other.unit)
